@@ -224,6 +224,85 @@ def oversize_case(draw):
             draw(st.sampled_from([1, 1, 2, 5])), draw(st.booleans()), draw(st.sampled_from(STORAGE_SETS)) + [draw(st.sampled_from(gen.OPT_LEVELS))])
 
 
+# ------------------------------------------------------------------ constants with characters beyond U+00FF (stored as UTF-8)
+
+WIDE_CHARS = ["\u0101", "\u20ac", "\U0001f600", "a", "\u00e9"]     # 2, 3 and 4 bytes of UTF-8; one ASCII and one Latin-1 character (1 byte each)
+
+
+def wide_bytes(text):
+    try:
+        return text.encode("latin-1")
+    except UnicodeEncodeError:
+        return text.encode("utf-8")
+
+
+def wide_body(shard, val):
+    """A string constant whose characters do not all fit a byte is stored UTF-8 encoded (nmfu's documented fallback); capacity checks and the
+    length counter must count the bytes stored, not the characters written."""
+    kind, size, term, chars, argv = val
+    text = "".join(chars)
+    data = wide_bytes(text)
+    cap = size - 1 if term else size
+    decl_t = "" if term else "unterminated "
+    if kind == "default":
+        src = "out %sstr[%d] s = \"%s\";\nparser { \"a\"; }\n" % (decl_t, size, text)
+    else:
+        src = "out %sstr[%d] s;\nparser { \"a\"; s = \"%s\"; \"b\"; }\n" % (decl_t, size, text)
+    replay = {"source": src, "argv": argv}
+    out = front.compile_src(src, argv)
+    shard.event("evaluations")
+    shard.event("wide:" + kind + (":fits" if len(data) <= cap else ":too-long"))
+    if out.kind == "crash":
+        raise Failure("c03:wide-constant-crash:" + kind, "%r" % out, replay)
+    if len(data) > cap:
+        if out.accepted:
+            raise Failure("c03:oversize-constant-accepted:wide-" + kind,
+                          "a constant of %d characters = %d stored bytes was accepted for a string of capacity %d (%s); it must be a compile-time diagnosis"
+                          % (len(text), len(data), cap, kind), replay)
+        shard.nontriv(src)
+        return
+    if not out.accepted:
+        raise Failure("c03:fitting-constant-rejected:wide-" + kind, "%r\n%s" % (out, src), replay)
+    try:
+        binary = crun.Binary(out.compiled, sanitize=True, tag="wd")
+    except crun.BuildError as e:
+        raise Failure("c03:c-build-error", str(e)[-800:], replay)
+    try:
+        sc = trace.script_for([b"a", b"b"], call_free=binary.info.dynmem, move=True)
+        rc, outp, err = binary.run_raw(sc)
+        shard.event("wide_runs")
+        if rc != 0:
+            raise Failure("c03:sanitizer:" + (sanitizer_kind(err) if err.strip() else "signal%s" % rc), err[-1200:], replay)
+        run = crun.parse_log(outp)[0]
+        calls = trace.c_calls(run)
+        probs = invariants(binary.info, calls) + term_problems(binary.info, run)
+        feeds = [c for c in calls if c.kind == "feed"]
+        cnt, dat = feeds[0].vars["s"]
+        if cnt != len(data) or (dat is not None and dat != data):
+            probs.append("after the constant was stored: counter %d, bytes %r; expected %d bytes %r" % (cnt, dat, len(data), data))
+        if probs:
+            raise Failure("c03:wide-constant:" + ("counter" if "counter" in probs[0] else "invariant"), "argv=%r: %s" % (argv, "; ".join(probs[:3])), replay)
+        shard.nontriv(src + repr(argv))
+    finally:
+        binary.close()
+
+
+@st.composite
+def wide_case(draw):
+    chars = draw(st.lists(st.sampled_from(WIDE_CHARS), min_size=1, max_size=4))
+    if all(len(wide_bytes(c)) == 1 for c in chars):
+        chars.append(draw(st.sampled_from(WIDE_CHARS[:3])))
+    return (draw(st.sampled_from(["default", "assign"])), draw(st.sampled_from([2, 3, 4, 5, 8, 12, 16])), draw(st.booleans()), chars,
+            draw(st.sampled_from(STORAGE_SETS)) + [draw(st.sampled_from(gen.OPT_LEVELS))])
+
+
+def wide_worker(job):
+    seed, n, known = job
+    shard = Shard()
+    common.hyp_run(shard, lambda v: wide_body(shard, v), wide_case(), n, seed, known_keys=known)
+    return shard
+
+
 # ------------------------------------------------------------------ capacity boundaries at counter-width limits
 
 def boundary_body(shard, val):
@@ -304,6 +383,10 @@ def boundary_worker(job):
 
 @st.composite
 def case_strategy(draw):
+    if draw(st.integers(0, 9)) == 0:
+        prog, datas = draw(gen.yield_overflow_program())
+        k = draw(st.integers(0, len(datas) - 4))
+        return prog, list(prog.argv) + ["-findirect-start-ptr"], datas[k:k + 4], [[1, 2], [3]]
     mode = draw(st.sampled_from(["plain", "plain", "plain", "yield", "eof"]))
     cfg = gen.GenConfig(max_depth=2, max_stmts=6, allow_yield=(mode == "yield"), allow_end=(mode == "eof"),
                         n_strs=(1, 3), n_raws=(0, 1), n_ints=(0, 2), str_sizes=[1, 2, 3, 4, 8],
@@ -410,6 +493,7 @@ def main(ctx):
     reg = sorted(glob.glob(os.path.join(common.VERIF_DIR, "regress", "C03", "*.json")))
     ctx.pmap(regress_worker, [(p, known) for p in reg])
     ctx.pmap(oversize_worker, [(ctx.seed * 100003 + 50 + i, 12 if quick else 100, known) for i in range(4)])
+    ctx.pmap(wide_worker, [(ctx.seed * 100003 + 60 + i, 8 if quick else 60, known) for i in range(4)])
     ctx.pmap(boundary_worker, [(ctx.seed * 100003 + 70 + i, 4 if quick else 30, known) for i in range(8)])
     n = 25 if quick else 400
     stop_at = time.time() + (80 if quick else 900)
@@ -423,7 +507,7 @@ def main(ctx):
     ctx.assumptions = ["intra-struct overruns are invisible to ASan; they are caught by the heap storage modes (same program), the guard words "
                        "and the per-call comparison with the model", "inputs with C-undefined arithmetic are skipped",
                        "post-DONE calls are not made"]
-    ctx.required_classes = ["programs", "class:capacity_reached", "oversize:default", "oversize:assign", "boundary_runs", "lifecycle_programs"]
+    ctx.required_classes = ["programs", "class:capacity_reached", "oversize:default", "oversize:assign", "boundary_runs", "lifecycle_programs", "wide:assign:too-long", "wide:default:too-long", "wide_runs"]
 
 
 def replay(ctx, data):
